@@ -176,8 +176,23 @@ func relCheck(tx *txRec, eff am.Schema) (string, string) {
 		if tx.typ == am.MutationSet && !has(called, b) {
 			ok = true
 		}
+		// (a Remove relation counts when its holder could have been part of some
+		// resolution of this mutation; a state that was merely implied and can
+		// never be accepted - it Requires a state that is neither active, called
+		// nor reachable through Add relations - removes nothing)
 		for _, x := range K {
-			if x != b && has(eff[x].Remove, b) {
+			if x == b || !has(eff[x].Remove, b) {
+				continue
+			}
+			possible := true
+			if !has(after, x) && !has(before, x) {
+				for _, rq := range eff[x].Require {
+					if !has(K, rq) {
+						possible = false
+					}
+				}
+			}
+			if possible {
 				ok = true
 			}
 		}
